@@ -16,6 +16,8 @@
 //   - every profile line names a program file, lies inside it, start before end;
 //   - its start is the start of a statement, and its count is the number of times that
 //     statement began executing (count mode) / 1 iff that number is non-zero (set mode);
+//   - a profile written over an existing (longer) profile of an earlier program version, without
+//     -coverappend, equals the profile written to a fresh path (history family);
 //   - the blocks partition the statements: numStmts consecutive statements from that one,
 //     every statement of every statement list in exactly one block, sum numStmts = #statements.
 package main
@@ -357,6 +359,8 @@ func (h *H) checkCase(n int, c *Case) (res caseResult) {
 		profile         string // "" = none written
 		preexisting     *string
 		appendFlag      bool
+		prevRun         bool   // first write the profile of an earlier, LONGER program to the same path
+		sameAs          string // the profile must equal, byte for byte, the one this other variant wrote to a fresh path
 	}
 	p1, p2, p3 := filepath.Join(dir, "p1.cov"), filepath.Join(dir, "p2.cov"), filepath.Join(dir, "p3.cov")
 	vs := []variant{
@@ -377,10 +381,47 @@ func (h *H) checkCase(n int, c *Case) (res caseResult) {
 		vs = append(vs, variant{name: "append-junk", mode: "set", flags: []string{"-coverappend", "-coverprofile", p3}, profile: p3, preexisting: &junk, appendFlag: true})
 	case "mode-only":
 		vs = append(vs, variant{name: "mode-only", mode: "count", flags: []string{"-covermode", "count"}})
+	case "history":
+		// the profile path already holds the (longer) profile of an earlier version of the program;
+		// run again without -coverappend (truncate), then once more with -coverappend, both modes
+		h1, h2 := filepath.Join(dir, "h1.cov"), filepath.Join(dir, "h2.cov")
+		vs = append(vs,
+			variant{name: "hist-set", mode: "set", flags: []string{"-coverprofile", h1}, profile: h1, prevRun: true, sameAs: "set"},
+			variant{name: "hist-set-append", mode: "set", flags: []string{"-coverappend", "-coverprofile", h1}, profile: h1, appendFlag: true},
+			variant{name: "hist-count", mode: "count", flags: []string{"-covermode", "count", "-coverprofile", h2}, profile: h2, prevRun: true, sameAs: "count"},
+			variant{name: "hist-count-append", mode: "count", flags: []string{"-covermode=count", "-coverappend", "-coverprofile", h2}, profile: h2, appendFlag: true})
 	}
+	// the earlier, longer version of the program: the same files plus one more with a dozen blocks
+	const prevExtra = `function zz_prev_unused(a,   i) { for (i = 0; i < 3; i++) { if (i == a) return i; a++ } while (a > 100) a-- ; return a }
+BEGIN { zz_p = 1; if (zz_p > 5) { zz_p = 2; zz_p++ } else zz_p = 0; for (zz_i = 0; zz_i < 2; zz_i++) zz_p += zz_i; do zz_p-- ; while (zz_p > 100) }
+END { if (zz_p == 12345) { zz_p = 1; { zz_p = 2 } } }
+`
+	var prevArgs []string
+	if c.CmdLine {
+		prevArgs = []string{c.Files[0].Content + "\n" + prevExtra}
+	} else {
+		extra := filepath.Join(dir, "zz_previous_version_of_the_script_with_a_long_name.awk")
+		if c.Extra == "history" {
+			if err := os.WriteFile(extra, []byte(prevExtra), 0o644); err != nil {
+				res.herr = err.Error()
+				return
+			}
+		}
+		prevArgs = append(append([]string{}, progArgs...), "-f", extra)
+	}
+	written := map[string]string{}
 	for _, v := range vs {
 		if v.preexisting != nil {
 			_ = os.WriteFile(v.profile, []byte(*v.preexisting), 0o644)
+		}
+		if v.prevRun {
+			pa := append(append(append([]string{}, v.flags...), prevArgs...), inArgs...)
+			pr := h.runCLI(dir, pa, c.Input)
+			if pr.Status == -999 || pr.Status == -1 {
+				res.herr = "the command could not be run or was killed: " + pr.Stderr + "\n" + progText
+				return
+			}
+			res.hist = append(res.hist, "run:earlier-version")
 		}
 		old, oldErr := []byte(nil), error(nil)
 		if v.profile != "" {
@@ -399,10 +440,10 @@ func (h *H) checkCase(n int, c *Case) (res caseResult) {
 		// (1) transparency
 		if got.Stdout != plain.Stdout || got.Status != plain.Status {
 			class := c.Kind
-			if before.HasEmptyAction() {
-				class = "action-with-empty-body"
-			} else if codelessAction {
+			if codelessAction {
 				class = "action-or-END-body-of-only-empty-blocks"
+			} else if before.HasEmptyAction() {
+				class = "action-with-empty-body"
 			}
 			fail(class, "output and exit status equal with and without coverage", map[string]any{
 				"args": args, "expected_stdout": plain.Stdout, "expected_status": plain.Status,
@@ -415,6 +456,24 @@ func (h *H) checkCase(n int, c *Case) (res caseResult) {
 		if err != nil {
 			fail(c.Kind, "profile written after a run without error", map[string]any{"args": args, "error": err.Error(), "stderr": got.Stderr})
 			continue
+		}
+		written[v.name] = string(text)
+		if v.prevRun {
+			if existed && len(old) > len(text) {
+				res.hist = append(res.hist, "history:earlier-profile-was-longer")
+			} else {
+				res.hist = append(res.hist, "history:earlier-profile-not-longer")
+			}
+		}
+		if v.sameAs != "" {
+			if fresh, ok := written[v.sameAs]; ok {
+				res.searches++
+				if fresh != string(text) {
+					fail(c.Kind, "profile written over an existing profile without -coverappend equals the one written to a fresh path",
+						map[string]any{"args": args, "earlier_program_args": prevArgs, "profile_before_the_run": string(old),
+							"expected_profile": fresh, "got_profile": string(text)})
+				}
+			}
 		}
 		// correspondence: whole file
 		res.reqs = append(res.reqs, corrReq{"profile-" + v.name, progText,
@@ -607,6 +666,12 @@ END { { print "x"; { print "y"; exit; print "dead" } } print "dead2" }
 		{Kind: "hand:comment-only-file", Files: []PFile{{"a.awk", "# nothing\n\n"}, {"b.awk", "\n\n{ print }\n"}}, Input: in, Extra: "append-junk"},
 		{Kind: "hand:same-file-twice-different-names", Files: []PFile{{"a.awk", "BEGIN { print 1 }\n"}, {"b.awk", "BEGIN { print 1 }\n"}}, Input: in, Extra: "mode-only"},
 		{Kind: "hand:input-files", Files: []PFile{{"a.awk", "FNR == 2 { nextfile }\n{ print FNR, $0 }\n"}}, InFiles: []string{"a\nb\nc\n", "d\ne\n"}, Extra: "count-append"},
+		// history: the profile path holds the longer profile of an earlier version of the program
+		{Kind: "hand:history-one-block", Files: []PFile{{"a.awk", "BEGIN { print 1 }\n"}}, Input: in, Extra: "history"},
+		{Kind: "hand:history-rules", Files: []PFile{{"a.awk", "{ n++; if (NR % 2) print; else next }\nEND { print n }\n"}}, Input: in, Extra: "history"},
+		{Kind: "hand:history-two-files", Files: []PFile{{"a.awk", "function f(x) { return x * 2 }\n"}, {"b.awk", "{ print f(NR) }\n"}}, Input: in, RelPaths: true, Extra: "history"},
+		{Kind: "hand:history-cmdline", Files: []PFile{{"a.awk", "BEGIN { x = 1; while (x < 3) x++; print x }"}}, CmdLine: true, Input: in, Extra: "history"},
+		{Kind: "hand:history-empty-action", Files: []PFile{{"a.awk", "{}\nEND { print NR }\n"}}, Input: in, Extra: "history"},
 		// a statement list left open across two files
 		{Kind: "straddle", Straddle: true, Files: []PFile{{"a.awk", "BEGIN { print 1"}, {"b.awk", "print 2 }\n"}}, Input: in, Extra: "count-append"},
 		{Kind: "straddle", Straddle: true, Files: []PFile{{"a.awk", "BEGIN {\n  print 1\n  print 2\n  if (1) {\n"}, {"b.awk", "print 3 }\n}\n"}}, Input: in},
@@ -692,7 +757,7 @@ func main() {
 	if o.N > 0 {
 		nGen, nAwk, nAnn = o.N, o.N/4, o.N*10
 	}
-	extras := []string{"count-append", "set-overwrite", "set-append-new", "eqflags", "append-junk", "mode-only", ""}
+	extras := []string{"count-append", "set-overwrite", "set-append-new", "eqflags", "append-junk", "mode-only", "", "history", "history"}
 	cases := handCases()
 	for i := 0; i < nGen; i++ {
 		gp := genItems(r, 1+r.Intn(3))
